@@ -25,7 +25,7 @@ RULE = (
     "slices are consecutive, disjoint, each <= chunksize rows, their union is [0,n) exactly once; passes == 1, or 2 "
     "iff centres are generated; no request covers more than chunksize rows when n > chunksize; Parquet: row groups "
     "in order, none twice per pass, buffered rows < chunksize + largest row group. Non-trivial: n > chunksize "
-    "(more than one chunk). Distinct: the case tuple."
+    "(more than one chunk). Reader objects (frame, HDF5, FITS, Parquet) reused over passes: every history of <= 2 (3) of {peek, loop left after 2 chunks, full pass, probe} must be followed by a complete pass. Distinct: the case tuple."
 )
 ASSUMPTIONS = [
     "requests are observed at the library's seam to the source object (slicing of the frame / dataset / FITS column, "
@@ -53,6 +53,12 @@ def cases(tier, seed):
                     out.append(dict(n=n, chunksize=cs, source="random", mode=mode))
     if tier == "thorough":
         out.append(dict(n=150_001, chunksize=65_536, source="random", mode="create"))
+    # one reader object used for several passes: an abandoned pass or a probe must not shift the next pass
+    ops = ("peek", "break2", "pass", "probe")
+    for src, (n, cs) in itertools.product(("frame", "hdf", "fits", "pq2", "pqu"), ((5, 2), (7, 3), (4, 4))):
+        for hl in range(0, 3 if tier == "quick" else 4):
+            for hist in itertools.product(ops, repeat=hl):
+                out.append(dict(part="reader", source=src, n=n, chunksize=cs, hist=list(hist)))
     return out
 
 
@@ -184,7 +190,62 @@ def check_log(log, n, cs, expect_passes, v, tag, column_count):
             return
 
 
+def run_reader(case):
+    import pandas as pd
+    from yaw.catalog import readers as R
+
+    n, cs, src = case["n"], case["chunksize"], case["source"]
+    cols = columns(n)
+    d = runner.fresh_dir("c18r")
+    kw = dict(ra_name="ra", dec_name="dec", weight_name="w", patch_name="pid", chunksize=cs)
+
+    path = None if src == "frame" else write_file(src, cols, d, n)
+
+    def new():
+        if src == "frame":
+            return R.DataFrameReader(pd.DataFrame(cols), **kw)
+        return R.new_filereader(path, **kw)
+
+    def full(reader):
+        chunks = [np.asarray(c) for c in reader]
+        return np.concatenate(chunks) if chunks else np.empty(0)
+
+    v = []
+    try:
+        with new() as fresh_reader:
+            want = full(fresh_reader)
+        with new() as reader:
+            for op in case["hist"]:
+                if op == "peek":
+                    next(iter(reader))
+                elif op == "break2":
+                    for i, _ in enumerate(reader):
+                        if i == 1:
+                            break
+                elif op == "pass":
+                    full(reader)
+                else:
+                    reader.get_probe(2)
+            got = full(reader)
+    except Exception as e:
+        return dict(nontrivial=True, key=case, status="violation", violations=[dict(
+            signature=f"C18/reader/exception:{type(e).__name__}", what=f"reader raised {yawx.exc_name(e)} ({case})")])
+    tag = "parquet" if src.startswith("pq") else src
+    if len(want) != n:
+        v.append(dict(signature=f"C18/reader/{tag}/first-pass", what=f"a pass over a fresh reader delivers {len(want)} of {n} records"))
+    elif len(got) != n or not np.array_equal(got, want):
+        v.append(dict(signature=f"C18/reader/{tag}/pass-after-history",
+                      what=f"after {case['hist']} on the same reader the next pass delivers {len(got)} records "
+                           f"(of {n}) that are not the records of a complete pass"))
+    res = dict(nontrivial=bool(case["hist"]), key=case)
+    if v:
+        res.update(status="violation", violations=v)
+    return res
+
+
 def run_case(case):
+    if case.get("part") == "reader":
+        return run_reader(case)
     import pandas as pd
     from yaw import AngularCoordinates, Catalog
     from yaw.catalog import catalog as C
